@@ -84,6 +84,11 @@ Proof.
 Qed.
 Print Assumptions C09_edges.
 
+(* at most one edge between two nodes (Node.add), for any engine *)
+Theorem C09_edges_nodup : forall e ro fo L X, NoDup (t_kids (construct e ro fo) L X).
+Proof. intros. unfold t_kids, skids. apply NoDup_adds. constructor. Qed.
+Print Assumptions C09_edges_nodup.
+
 (* the value-level graph itself (Construct.vt / node children), no hypothesis *)
 Theorem C09_edges_values : forall e ro fo p c,
   In c (kids (d_edges (construct e ro fo)) p) <->
